@@ -4,6 +4,7 @@
 sd=$1; pkg=$2; re=$3; shift 3
 export GOFLAGS=-mod=mod GOPROXY=off GOSUMDB=off GOTOOLCHAIN=local
 cd /repo || exit 2
+rm -rf /tmp/evidence_backup && cp -r /verif/evidence /tmp/evidence_backup   # runs against a patched tree must not leave evidence behind
 git apply $sd/patch.diff || { echo "PATCH DOES NOT APPLY"; exit 2; }
 git diff --stat | tail -1
 echo "== existing tests with patch:"; go test -vet=off -count=1 ./go/... 2>&1 | grep -v "no test files" | grep -v "^ok" ; echo "   (no lines above = all ok)"
@@ -16,3 +17,4 @@ cp $sd/demo_test.go $pkg/zz_seed_demo_test.go
 echo "== demo without patch (must pass):"; go test -vet=off -count=1 -run "$re" ./$pkg/ 2>&1 | tail -1
 rm $pkg/zz_seed_demo_test.go
 git status --short
+rm -rf /verif/evidence && mv /tmp/evidence_backup /verif/evidence; rm -rf /verif/replays
